@@ -46,6 +46,7 @@ EXTENDS MatQ, FiniteSets, TLC, Json
 CONSTANTS Level,               \* 1 quick, 2 thorough (more parameters / grids / matrices)
           Kinds,               \* subset of {"steady", "time", "tobs", "sobs"}
           Emit,
+          UBound,              \* time: a level whose numerators / denominators exceed this is not stepped further (32-bit TLC)
           OperatorAtOldTime,
           DtFromNextInterval
 
@@ -169,7 +170,7 @@ EmitSteady ==
 (* time dependent                                                          *)
 (***************************************************************************)
 Grids == { <<Zero, Q(1, 2), One, Two>>, <<Zero, One, Q(3, 2), Two, R(4)>> }
-         \cup (IF Level < 2 THEN {} ELSE { <<RNeg(One), Q(-1, 2), Q(1, 2)>>, <<Zero, Q(1, 4), One, Q(3, 2), Two>> })
+         \cup (IF Level < 2 THEN {} ELSE { <<RNeg(One), Q(-1, 2), Q(1, 2)>>, <<Zero, Q(1, 2), Q(3, 2), Two>> })
 
 TimeMats ==
     { [n |-> 2, A0 |-> <<<<-2, 1>>, <<1, -2>>>>, A1 |-> <<<<0, 1>>, <<0, 0>>>>, f0 |-> <<1, 0>>, f1 |-> <<0, 1>>,
@@ -208,8 +209,12 @@ U0Of(p) == QVAdd(IV(p.m.c0), QMV(IM(p.m.U0), IV(p.th)))
 
 NSteps(p) == Len(p.T) - 1
 
+\* 32-bit guard (see Solvers.tla): a trajectory whose numbers grow beyond UBound is "abandoned"; its prefix is still emitted
+SmallU(u) == \A i \in 1..Len(u) : Abs(u[i][1]) <= UBound /\ u[i][2] <= UBound
+StatusT(p, idx, u) == IF idx = Len(p.T) THEN "done" ELSE IF SmallU(u) THEN "step" ELSE "abandoned"
+
 TimeInit(p) ==
-    /\ st' = [idx |-> 1, u |-> ICForm(p.m, p.th, p.T, p.T[1])]
+    /\ st' = [idx |-> 1, u |-> ICForm(p.m, p.th, p.T, p.T[1]), status |-> StatusT(p, 1, ICForm(p.m, p.th, p.T, p.T[1]))]
     /\ traj' = << ICForm(p.m, p.th, p.T, p.T[1]) >>
     /\ calls' = << p.T[1] >>
 
@@ -220,7 +225,7 @@ DtOf(p, idx) == IF DtFromNextInterval /\ idx + 2 <= Len(p.T) THEN QSub(p.T[idx +
 
 Step ==
     /\ Run("time")
-    /\ st.idx <= NSteps(pb)
+    /\ st.status = "step"
     /\ LET ta == AssembleTime(pb, st.idx)
            dt == DtOf(pb, st.idx)
            A  == ATime(pb.m, ta)
@@ -229,7 +234,7 @@ Step ==
            u1 == IF pb.method = "forward_euler"
                  THEN F(QVAdd(QMV(QMAdd(MId(n), QMScale(dt, A)), st.u), QVScale(dt, f)))
                  ELSE F(QSolve(QMSub(MId(n), QMScale(dt, A)), QVAdd(st.u, QVScale(dt, f))))
-       IN /\ st' = [idx |-> st.idx + 1, u |-> u1]
+       IN /\ st' = [idx |-> st.idx + 1, u |-> u1, status |-> StatusT(pb, st.idx + 1, u1)]
           /\ traj' = Append(traj, u1)
           /\ calls' = Append(calls, ta)
     /\ UNCHANGED <<pb, ph>>
@@ -238,7 +243,7 @@ Step ==
 \* every stored level satisfies the documented discrete equation with the operator/source of ITS step
 DiscreteEquation ==
     Run("time") =>
-        \A i \in 1..(Len(traj) - 1) :
+        \A i \in 1..(IF st.status = "abandoned" THEN Len(traj) - 2 ELSE Len(traj) - 1) :     \* (abandoned: last level too large)
             LET dt == QSub(pb.T[i + 1], pb.T[i])
                 tl == IF pb.method = "forward_euler" THEN pb.T[i] ELSE pb.T[i + 1]          \* documented time level
                 ua == IF pb.method = "forward_euler" THEN traj[i] ELSE traj[i + 1]
@@ -254,7 +259,8 @@ Progress ==
                    /\ calls[1] = pb.T[1]
                    /\ \A i \in 1..(st.idx - 1) : calls[i + 1] = (IF pb.method = "forward_euler" THEN pb.T[i] ELSE pb.T[i + 1])
 
-TimeDone == Run("time") /\ st.idx = Len(pb.T)
+TimeDone == Run("time") /\ st.status = "done"
+TimeEnded == Run("time") /\ st.status # "step"
 
 \* observation of the finished trajectory
 TObsTimes(p) == CASE p.omode = "final" -> << p.T[Len(p.T)] >>
@@ -274,12 +280,12 @@ FinalIsRestriction ==
                                        /\ \A i \in 1..pb.m.n : o[i] = << traj[Len(pb.T)][i] >>
 
 EmitTime ==
-    (Emit /\ TimeDone) =>
-        PrintT("@@CASE " \o ToJson([kind |-> "time", n |-> pb.m.n, A0 |-> pb.m.A0, A1 |-> pb.m.A1, f0 |-> pb.m.f0, f1 |-> pb.m.f1,
+    (Emit /\ TimeEnded) =>
+        PrintT("@@CASE " \o ToJson([kind |-> "time", status |-> st.status, n |-> pb.m.n, A0 |-> pb.m.A0, A1 |-> pb.m.A1, f0 |-> pb.m.f0, f1 |-> pb.m.f1,
                                     Fth |-> pb.m.Fth, c0 |-> pb.m.c0, U0 |-> pb.m.U0, w |-> pb.m.w, x |-> pb.m.x, T |-> pb.T,
                                     th |-> pb.th, method |-> pb.method, ret |-> pb.ret, omode |-> pb.omode, omap |-> pb.omap,
                                     traj |-> traj, calls |-> calls, gobs |-> TObsGrid(pb), tobs |-> TObsTimes(pb),
-                                    obs |-> ObserveT(pb, traj)]) \o " @@END")    \* the map is applied by the replayer (32 bit)
+                                    obs |-> IF st.status = "done" THEN ObserveT(pb, traj) ELSE <<>>]) \o " @@END")    \* the map is applied by the replayer (32 bit)
 
 (***************************************************************************)
 (* observation of polynomial data                                          *)
